@@ -264,7 +264,8 @@ def _box_axioms(key, f, ty):
         t = v != 0
     else:
         return
-    BOX_AXIOMS[key] = z3.ForAll([v], z3.And(f(v) > 0, tr(f(v)) == t), patterns=[f(v)])
+    inv = z3.Function("unbox_" + ty.kind, z3.IntSort(), sort_of(ty))
+    BOX_AXIOMS[key] = z3.ForAll([v], z3.And(f(v) > 0, tr(f(v)) == t, inv(f(v)) == v), patterns=[f(v)])
 
 
 
@@ -290,8 +291,14 @@ def box(v: V) -> V:
     if k == "tuple":
         f = _box_funs.get("tuple%d" % len(v.items))
         if f is None:
-            f = z3.Function("box_tuple%d" % len(v.items), *([z3.IntSort()] * (len(v.items) + 1)))
-            _box_funs["tuple%d" % len(v.items)] = f
+            n = len(v.items)
+            f = z3.Function("box_tuple%d" % n, *([z3.IntSort()] * (n + 1)))
+            _box_funs["tuple%d" % n] = f
+            xs = [z3.Int("x%d!bt" % i) for i in range(n)]
+            projs = [z3.Function("proj%d_tuple%d" % (i, n), z3.IntSort(), z3.IntSort()) for i in range(n)]
+            if n:
+                BOX_AXIOMS["tuple%d" % n] = z3.ForAll(xs, z3.And([f(*xs) > 0] + [projs[i](f(*xs)) == xs[i] for i in range(n)]),
+                                                      patterns=[f(*xs)])
         return V(ANY, f(*[box(i).t for i in v.items]))
     if k == "star":
         return V(ANY, z3.Int("box_star_" + str(v.py)))
